@@ -36,7 +36,7 @@ def make_framework(spec):
     for c in comps:
         special = c.get("source") or c.get("sink")
         in_book = (not special) and c.get("setup", not c.get("junction"))
-        ws.append([c["name"], c["name"], c.get("source"), c.get("sink"), c.get("junction"), c.get("default", 0) if in_book else None, "stocks" if in_book else None])
+        ws.append([c["name"], c["name"], c.get("source"), c.get("sink"), c.get("junction"), c.get("default", 0) if in_book else c.get("default"), "stocks" if in_book else None])
     ws = wb.create_sheet("Characteristics")
     ws.append(["Code name", "Display name", "Components", "Denominator", "Databook page", "Default value"])
     for ch in characs:
